@@ -591,7 +591,7 @@ func c11Strings(ctx *fw.Ctx, forName bool) []string {
 		add(s)
 	}
 	rng := ctx.Rand("c11strings")
-	n := ctx.Pick(300, 3000)
+	n := ctx.Pick(300, 15000)
 	for i := 0; i < n; i++ {
 		l := 1 + rng.Intn(64)
 		b := make([]byte, l)
